@@ -19,6 +19,13 @@ Invariants after every step (exactly the three sentences of the statement):
     listed with exactly the substitute seen in the output, every listed original occurred in some
     input or is the system's own name, and both reports agree; at the end of the history the CSV
     reports written by generate_report() carry the same pairs as mapping().
+
+Sub-check `compete` runs the same kind of history with keywords that are *parts of* (or whole) host
+names / addresses the lines carry, i.e. with obfuscators that compete for the same text.  Which of
+them wins such a token is not stated, so the report sentences are demanded in the form that does not
+depend on it: a listed original occurred literally in some input (or is the system's name), and what
+the output shows in the place of an original derives from it by listed pairs alone (the whole original,
+or the keywords inside it, replaced by what they are listed with).
 """
 import hashlib
 import json
@@ -44,10 +51,19 @@ RULE = ("stateful: one Cleaner (IPv4, hostname, MAC on; 0-3 keywords) per case, 
         "optional per-spec no_obfuscate exemptions. After every step: consistency, injectivity "
         "(IPv4, hosts), report (mapping() of every obfuscator, the facts file, finally the CSV files). Non-trivial: some "
         "original recurs in >= 2 operations AND some line carries >= 2 different originals of one class; "
-        "distinct by the whole history.")
+        "distinct by the whole history. Sub-check compete: the same histories (1-8, thorough 1-16 operations, no "
+        "exemptions, delimiters without token characters) with 1-3 keywords of which most are derived from an IP / "
+        "host name / MAC that the lines really carry (a piece of the first label of a host name, a piece crossing "
+        "into the domain, the whole name, a piece of an address, the whole address); oracle = consistency, "
+        "injectivity and the report sentences in their order-agnostic form (listed originals occurred literally in "
+        "an input; the text shown for an original derives from it by listed pairs that are part of it). "
+        "Non-trivial there: some line carries an IP / host name / MAC that has a configured keyword inside.")
 ASSUMPTIONS = [
-    "PYTHONHASHSEED is pinned by the runner; tokens of different classes never overlap textually, so "
-    "the (hash-seed dependent) order in which the obfuscators run cannot matter here (that is C10)",
+    "PYTHONHASHSEED is pinned by the runner; in sub-check history tokens of different classes never overlap "
+    "textually, so the order in which the obfuscators run cannot matter there; sub-check compete makes keywords "
+    "overlap with the other classes and demands only what holds whichever obfuscator wins a token",
+    "compete: a token that has a configured keyword inside may be shown with the keyword replaced instead of "
+    "being replaced as a whole (then the keyword is what must be listed); it is consistent either way",
     "an occurrence is a token whose neighbours are outside the token's own syntax (delimiter sets as "
     "in C08); the replacement of an occurrence is the text found between the unchanged neighbours",
     "the system's short name and its FQDN are one host (both are replaced by the same substitute and "
@@ -71,6 +87,16 @@ EXCLUDED = [
     "width=True (netstat column mode of the IPv4 obfuscator rewrites the blanks after a token, so "
     "occurrences cannot be read back; same _ip2db underneath) and IPv6 (switched off as in DESIGN G)",
     "redaction patterns / allow-lists (lines would disappear; not part of C09)",
+    "compete: keywords that are substrings of a text the cleaner itself emits in the history (host<N>.example.com, "
+    "the hash label, 10.230.230.<N>, keyword<N>, the MAC substitutes): the keyword obfuscator rewrites the "
+    "substitutes of the others, the listed substitute is then no longer what the output shows (same class as the "
+    "unsafe short names); replaced by a plain keyword in the generator",
+    "compete: keywords of exactly two hex digits - 'keyword<N>' ends in the hex pair 'd<N>', so keyword 'ab' turns "
+    "the MAC 'ab:bb:cc:dd:ee:ff' into 'keyword0:bb:cc:dd:ee:ff', in which the MAC obfuscator (which runs after the "
+    "keywords) finds and lists the address 'd0:bb:cc:dd:ee:ff' that occurred nowhere (observed on the unchanged "
+    "tree, reported to the lead; contrived configuration)",
+    "compete: lines with 'password' (the password obfuscator cuts values that are addresses; C09 does not name it) "
+    "and per-spec exemptions (covered without competing keywords by sub-check history)",
 ]
 
 CLASSES = ("ip", "host", "mac", "kw")
@@ -97,6 +123,12 @@ FILLERS = ["", "", " ", " ", "  ", " GHK ", "LMNOP", " HOP IJ=", " (MN) ", "\tKL
 FILLER_OK = re.compile(r"\A[G-P \t,;()\[\]='\"/<>|@#$%&*+!?~{}.:]*\Z")
 WORDISH = re.compile(r"[A-Za-z0-9_.:-]")
 TOKGROUP = r"([0-9a-zA-FQ-Z.:_-]*?)"     # everything an original or a substitute can consist of
+# competing histories (keywords that are parts of host names / addresses): a keyword consists of token
+# characters only, so with delimiters that carry none of them a keyword can only ever match *inside* a
+# token (as it stands when the keyword obfuscator gets the line), never across a token boundary
+_KWCHARS = re.compile(r"[a-z0-9A-F_.:-]")
+LD_C = dict((c, [d for d in v if not _KWCHARS.search(d)]) for c, v in LD.items())
+RD_C = dict((c, [d for d in v if not _KWCHARS.search(d)]) for c, v in RD.items())
 
 
 # ---- rendering a line and the template that reads it back ----------------------------------------
@@ -108,18 +140,19 @@ def _join(text, piece):
     return text + piece, piece
 
 
-def render_line(line, pools):
+def render_line(line, pools, compete=False):
     """-> (text, compiled template, [(class, original), ...] in left-to-right order)"""
     text = ""
     pat = ""
     occ = []
+    lds, rds = (LD_C, RD_C) if compete else (LD, RD)
     text, lit = _join(text, line["pre"])
     pat += re.escape(lit)
     for cls, idx, li, ri, fill in line["toks"]:
         pool = pools[cls]
         tok = pool[idx % len(pool)]
-        ld = LD[cls][li % len(LD[cls])]
-        rd = RD[cls][ri % len(RD[cls])]
+        ld = lds[cls][li % len(lds[cls])]
+        rd = rds[cls][ri % len(rds[cls])]
         text, lit = _join(text, ld)
         pat += re.escape(lit)
         if ld:
@@ -153,8 +186,13 @@ def _validate(case):
     for m in pools["mac"]:
         assert re.match(r"\A[0-9a-fA-F]{2}([:-])([0-9a-fA-F]{2}\1){4}[0-9a-fA-F]{2}\Z", m), m
     for k in pools["kw"]:
-        assert re.match(r"\A[Q-Z]{4}\Z", k), k
+        if case.get("compete"):
+            assert re.match(r"\A[Q-Z]{4}\Z", k) or case.get("allow_unsafe_kw") or not kw_unsafe(k, fq, pools), k
+        else:
+            assert re.match(r"\A[Q-Z]{4}\Z", k), k
+    assert len(set(pools["kw"])) == len(pools["kw"])
     for op in case["ops"]:
+        assert not (case.get("compete") and op["no_obf"]), op["no_obf"]
         for ln in op["lines"]:
             assert FILLER_OK.match(ln["pre"]) and all(FILLER_OK.match(t[4]) for t in ln["toks"]), ln
             assert all(t[0] in CLASSES and pools[t[0]] for t in ln["toks"]), ln
@@ -172,6 +210,49 @@ def unsafe_short(short):
     return any(short in word for word in ("host", "example", "com", "keyword"))
 
 
+# ---- keywords that are parts of host names / addresses (competing histories) ----------------------
+
+def _emitted(fqdn, pools):
+    """every text an obfuscator can put into a line of this history"""
+    out = ["host%d.example.com" % n for n in range(64)] + ["10.230.230.%d" % n for n in range(64)]
+    out += ["keyword%d" % n for n in range(10)] + ["********"]
+    out.append(hashlib.sha1(fqdn.encode()).hexdigest()[:12] + ".example.com")
+    out += [_mac_subst(m) for m in pools["mac"]]
+    return out
+
+
+def kw_unsafe(kw, fqdn, pools):
+    """True for keywords outside the generated domain of a competing history"""
+    if not re.match(r"\A[a-z0-9A-F_.:-]{2,}\Z", kw):
+        return True        # could match in the filler / across a token boundary
+    if re.match(r"\A[0-9a-fA-F]{2}\Z", kw):
+        return True        # EXCLUDED: 'keyword<N>' ends in the hex pair 'd<N>' and fabricates a MAC
+    return any(kw in e for e in _emitted(fqdn, pools))    # EXCLUDED: rewrites the cleaner's own substitutes
+
+
+def explained(orig, shown, pairs, kwpairs=()):
+    """the text shown in the place of an original derives from it by replacing listed originals that are
+    part of it by the substitutes they are listed with (the whole token in the usual case, a keyword
+    inside it otherwise) - in any order, nothing else.  A listed keyword may also be replaced where it
+    only comes about next to an earlier replacement ('aa:b' -> 'keyword0', then '0b:c' in 'keyword0b:cc')."""
+    use = sorted(set((a, b) for a, b in pairs if a and a in orig) | set((a, b) for a, b in kwpairs if a))
+    seen = set([orig])
+    frontier = [orig]
+    for _ in range(4):
+        nxt = []
+        for t in frontier:
+            for a, b in use:
+                if a in t:
+                    u = t.replace(a, b)
+                    if u == shown:
+                        return True
+                    if u not in seen:
+                        seen.add(u)
+                        nxt.append(u)
+        frontier = nxt
+    return False
+
+
 # ---- the check -----------------------------------------------------------------------------------
 
 def check_history(case):
@@ -180,6 +261,7 @@ def check_history(case):
     pools = case["pools"]
     fqdn = case["fqdn"]
     short = fqdn.split(".")[0]
+    compete = bool(case.get("compete"))
 
     def canon(cls, orig):
         return fqdn if (cls == "host" and orig == short) else orig
@@ -198,10 +280,13 @@ def check_history(case):
         occurred = dict((c, set()) for c in CLASSES)  # canonical originals present in any input
         steps_of = {}                                # (class, original) -> set of steps
         shared_line = False
+        inputs = []                                  # competing histories: every input line so far,
+        shown = {}                                   # (class, original) -> texts shown in its place
+        competing = False
 
         for step, op in enumerate(case["ops"]):
             exempt = set(c for c in CLASSES if OBF_NAME[c] in op["no_obf"])
-            rendered = [render_line(ln, pools) for ln in op["lines"]]
+            rendered = [render_line(ln, pools, compete) for ln in op["lines"]]
             texts = [r[0] for r in rendered]
             kind = op["op"]
             labels.add("op=" + kind)
@@ -227,6 +312,7 @@ def check_history(case):
             if not isinstance(outs, list) or len(outs) != len(texts):
                 raise Violation("cleaning changed the number of lines although nothing is redacted",
                                 step=step, input=texts, output=outs)
+            inputs.extend(texts)
 
             for lno, ((text, tmpl, occ), out) in enumerate(zip(rendered, outs)):
                 m = tmpl.fullmatch(out)
@@ -242,8 +328,18 @@ def check_history(case):
                         continue
                     steps_of.setdefault((cls, orig), set()).add(step)
                     per_class.setdefault(cls, set()).add(canon(cls, orig))
+                    if compete:
+                        shown.setdefault((cls, orig), set()).add(repl)
+                        if cls != "kw":
+                            for k in pools["kw"]:
+                                if k in orig:
+                                    competing = True
+                                    labels.add("keyword-inside-%s%s" % (cls, "-label" if cls == "host" and k in (
+                                        orig.split(".")[0]) else ""))
+                                    labels.add("keyword-is-whole-token" if k == orig else "keyword-is-part-of-token")
                     if cls == "kw":
-                        seen[cls].setdefault(orig, repl)
+                        if not compete:
+                            seen[cls].setdefault(orig, repl)
                         continue
                     # 1. consistency
                     if orig in seen[cls]:
@@ -270,7 +366,11 @@ def check_history(case):
                 _line_labels(occ, exempt, labels)
 
             # 3. report, after every step
-            _check_report(cleaner, cfg.rhsm_facts_file, fqdn, seen, occurred, canon, step)
+            if compete:
+                _check_report_compete(cleaner, cfg.rhsm_facts_file, fqdn, seen, shown, inputs, step, labels,
+                                      pools["kw"])
+            else:
+                _check_report(cleaner, cfg.rhsm_facts_file, fqdn, seen, occurred, canon, step)
 
         _check_csv(cleaner, tmp)
         recurs = any(len(s) >= 2 for s in steps_of.values())
@@ -289,6 +389,10 @@ def check_history(case):
         if case.get("renamed"):
             labels.add("excluded:unsafe-short-name-renamed")
         labels.add("steps=%s" % ("1" if len(case["ops"]) == 1 else "2-5" if len(case["ops"]) <= 5 else "6+"))
+        if compete:
+            # non-trivial: a keyword is part of an IP / host name / MAC that some line carries
+            labels.add("keywords-derived=%d" % sum(1 for k in pools["kw"] if not re.match(r"\A[Q-Z]{4}\Z", k)))
+            return {"nontrivial": competing, "labels": sorted(labels)}
         return {"nontrivial": bool(recurs and shared_line), "labels": sorted(labels)}
     finally:
         shutil.rmtree(tmp, ignore_errors=True)
@@ -310,12 +414,14 @@ def _line_labels(occ, exempt, labels):
         labels.add("host-textually-inside-another-on-a-line")
 
 
-def _check_report(cleaner, facts_file, fqdn, seen, occurred, canon, step):
+def _mappings(cleaner, facts_file, fqdn, step):
+    """-> {class: mapping()} after checking that the facts file carries exactly the same pairs"""
     cleaner.generate_rhsm_facts()
     with open(facts_file) as fh:
         facts = json.load(fh)
     if facts.get("insights_client.hostname") != fqdn:
         raise Violation("facts file names %r as the system, not %r" % (facts.get("insights_client.hostname"), fqdn))
+    out = {}
     for cls in CLASSES:
         obf = cleaner.obfuscate.get(OBF_NAME[cls])
         listed = obf.mapping() if obf else []
@@ -327,6 +433,57 @@ def _check_report(cleaner, facts_file, fqdn, seen, occurred, canon, step):
         if sorted(map(key, listed)) != sorted(map(key, in_facts)):
             raise Violation("report: facts file and %s.mapping() differ" % OBF_NAME[cls], step=step,
                             mapping=listed, facts=in_facts)
+        out[cls] = listed
+    return out
+
+
+def _check_report_compete(cleaner, facts_file, fqdn, seen, shown, inputs, step, labels, kws):
+    """the report sentences for histories in which a keyword is part of a host name / address: which
+    obfuscator wins such a token is not stated, so the oracle only demands what the statement says -
+    (a) a listed original occurred (literally, as a piece of text) in some input or is the system's own
+    name, (b) a listed original that is a token of the history and has no keyword inside is listed with
+    what the output shows in its place (with a keyword inside, the keyword may be what was replaced: the
+    system's own name is listed whether or not it was replaced as a whole), (c) whatever the output shows in the place of an original derives from that original by
+    listed pairs alone: the whole original, or keywords inside it, replaced by what they are listed with"""
+    listed = _mappings(cleaner, facts_file, fqdn, step)
+    short = fqdn.split(".")[0]
+    blob = "\n".join(inputs)
+    pairs, kwpairs = [], []
+    for cls in CLASSES:
+        by_orig = {}
+        for e in listed[cls]:
+            by_orig.setdefault(e["original"], set()).add(e["obfuscated"])
+            (kwpairs if cls == "kw" else pairs).append((e["original"], e["obfuscated"]))
+            if cls == "host" and e["original"] == fqdn:
+                pairs.append((short, e["obfuscated"]))     # the short name is reported under the FQDN
+        for orig, subs in sorted(by_orig.items()):
+            # (keywords: checked token-wise by sub-check history; here a keyword may legitimately be met
+            # first where it comes about next to an earlier replacement)
+            if cls != "kw" and orig not in blob and not (cls == "host" and orig in (fqdn, short)):
+                raise Violation("report: the %s mapping lists original %r which occurred in no input"
+                                % (cls, orig), step=step, mapping=listed[cls], inputs=inputs[-8:])
+            if cls != "kw" and orig in seen[cls] and subs != set([seen[cls][orig]]) and not any(k in orig for k in kws):
+                raise Violation("report: %s original %r is listed with %s but the output shows %r"
+                                % (cls, orig, sorted(subs), seen[cls][orig]), step=step, mapping=listed[cls])
+    for (cls, orig), texts in sorted(shown.items()):
+        for text in sorted(texts):
+            if text == orig:
+                continue
+            if not explained(orig, text, pairs, kwpairs):
+                raise Violation(
+                    "report: %s original %r appears in the output as %r, but no listed pair accounts for that "
+                    "(neither the original itself nor a keyword inside it is listed with what is shown)"
+                    % (cls, orig, text), step=step,
+                    listed_parts_of_it=sorted(p_ for p_ in set(pairs + kwpairs) if p_[0] in orig), mapping=listed)
+            own = [b for a, b in pairs + kwpairs if a == orig or (cls == "host" and orig == short and a == fqdn)]
+            labels.add("%s-replaced-whole" % cls if text in own else "%s-partly-replaced-by-keyword" % cls if cls != "kw"
+                       else "kw-token-replaced-by-other-obfuscator")
+
+
+def _check_report(cleaner, facts_file, fqdn, seen, occurred, canon, step):
+    listed_all = _mappings(cleaner, facts_file, fqdn, step)
+    for cls in CLASSES:
+        listed = listed_all[cls]
         by_orig = {}
         for e in listed:
             by_orig.setdefault(e["original"], set()).add(e["obfuscated"])
@@ -506,6 +663,64 @@ def strat_history(tier):
     return _history(15 if tier == "quick" else 30)
 
 
+_plain_kw = st.text("QRSTUVWXYZ", min_size=4, max_size=4)
+
+
+@st.composite
+def _derived_kw(draw, fqdn, pools, used):
+    """a keyword the user might well configure: a piece of (or a whole) host name / address that the
+    collected content carries - a project name that is also part of a host name, a subnet prefix, the
+    vendor prefix of a MAC"""
+    cls = draw(st.sampled_from(["host", "host", "host", "host", "ip", "ip", "mac", "mac", "plain"]))
+    if cls == "plain":
+        return draw(_plain_kw)
+    src = used[cls] or pools[cls]
+    tok = src[draw(st.integers(0, len(src) - 1))]
+    if cls == "host":
+        # mostly inside the first label (the part that differs between the hosts of a domain)
+        lab = len(tok.split(".")[0])
+        a = draw(st.sampled_from([0, 0, 0, draw(st.integers(0, max(lab - 2, 0)))]))
+        n = draw(st.sampled_from([2, 3, 3, 4, 5, 6, 8, lab - a, lab - a, 99]))
+    else:
+        a = draw(st.integers(0, len(tok) - 2))
+        n = draw(st.sampled_from([2, 3, 4, 5, 6, 8, 99]))
+    kw = tok[a:a + max(n, 2)]
+    return draw(_plain_kw) if kw_unsafe(kw, fqdn, pools) else kw
+
+
+@st.composite
+def _compete_history(draw, max_ops):
+    case = draw(_pools())
+    pools = case["pools"]
+    weights = ["ip"] * 2 + ["host"] * 5 + ["mac"] * 2 + ["kw"] * 2
+    classes = st.one_of(st.sampled_from(weights), st.sampled_from(weights), st.just("host"))
+    ops = []
+    for _ in range(draw(st.integers(1, max_ops))):
+        kind = draw(st.sampled_from(["list", "list", "str", "file"]))
+        nlines = 1 if kind == "str" else draw(st.integers(1, 4))
+        ops.append({"op": kind, "no_obf": [], "lines": [draw(_line(classes)) for _ in range(nlines)]})
+    # the keywords are derived from originals that the lines really carry
+    used = dict((c, []) for c in CLASSES)
+    for op in ops:
+        for ln in op["lines"][:1 if op["op"] == "str" else None]:
+            for t in ln["toks"]:
+                if t[0] != "kw" and pools[t[0]][t[1] % len(pools[t[0]])] not in used[t[0]]:
+                    used[t[0]].append(pools[t[0]][t[1] % len(pools[t[0]])])
+    kws = []
+    for _ in range(draw(st.integers(1, 3))):
+        k = draw(_derived_kw(case["fqdn"], pools, used))
+        if k not in kws:
+            kws.append(k)
+    pools["kw"] = kws
+    case["compete"] = True
+    case["ops"] = ops
+    return case
+
+
+def strat_compete(tier):
+    return _compete_history(8 if tier == "quick" else 16)
+
+
 # ---- self-test of the harness' own read-back ---------------------------------------------------------
 
 def selftest():
@@ -531,6 +746,29 @@ def selftest():
                       ("hostz", False), ("node", False), ("_srv", False), ("x1", False), ("keys", False)]:
         assert unsafe_short(name) == bad, (name, bad)
     assert _mac_subst("AA:BB:cc:dd:ee:ff") == _mac_subst("aa:bb:cc:dd:ee:ff") != "aa:bb:cc:dd:ee:ff"
+    # competing histories: a keyword (token characters only) can never match in the filler, in a delimiter
+    # or across a token boundary
+    for f in FILLERS + [d for v in list(LD_C.values()) + list(RD_C.values()) for d in v]:
+        assert not re.search(r"[a-z0-9A-F_.:-]{2}", f) and not (f and (_KWCHARS.match(f[0]) or _KWCHARS.match(f[-1]))), f
+    text, tmpl, occ = render_line({"pre": " GH: ", "toks": [["host", 2, 15, 11, "G"], ["ip", 0, 1, 0, " . "],
+                                                            ["kw", 0, 0, 0, ""]]}, pools, True)
+    assert text == " GH: H=db.d.io\tG 1.2.3.4 . QRST", repr(text)
+    pp = dict(pools, mac=["aa:bb:cc:dd:ee:ff"])
+    for kw, bad in [("ab", True), ("d0", True), ("host", True), ("st2.ex", True), ("230", True), (".1", True), ("ord", True),
+                    ("QRST", True), ("a b", True), ("x", True), ("we", False), ("db.d", False), ("2.3", False),
+                    ("bb:cc", False), ("AA-B", False), (_mac_subst("aa:bb:cc:dd:ee:ff")[3:8], True),
+                    (hashlib.sha1(b"web.d.io").hexdigest()[2:6], True)]:
+        assert kw_unsafe(kw, "web.d.io", pp) == bad, (kw, bad)
+    assert explained("px-db.d.io", "host3.example.com", [("px-db.d.io", "host3.example.com"), ("px", "keyword0")])
+    assert explained("px-db.d.io", "keyword0-db.d.io", [("px", "keyword0")])
+    assert explained("aa:bb:cc:dd:ee:ff", "aa:keyword1:dd:keyword0", [("ee:ff", "keyword0"), ("bb:cc", "keyword1")])
+    assert explained("xweb", "x0123456789ab.example.com", [("web", "0123456789ab.example.com")])
+    # not by way of a text that never was in the input, and not by a pair that is no part of the original
+    assert not explained("px-db.d.io", "host3.example.com", [("px", "keyword0"), ("keyword0-db.d.io", "host3.example.com")])
+    assert not explained("px-db.d.io", "host3.example.com", [("db.d.io", "host3.example.com")])
+    assert not explained("1.2.3.4", "10.230.230.1", [("1.2.3.45", "10.230.230.1")])
+    assert not explained("px-db.d.io", "host3.example.com", [("keyword0-db.d.io", "host3.example.com")], [("px", "keyword0")])
+    assert explained("aa:bb:cc:dd:ee:ff", "keywordkeyword1c:dd:ee:ff", [], [("aa:b", "keyword0"), ("0b:c", "keyword1")])
 
 
 # ---- the system's own name when the cleaner is not told one (as collect() builds it) -----------------
@@ -589,8 +827,10 @@ def strat_sysname(tier):
 
 SUBS = [
     Sub("sysname", check_sysname, strategy=strat_sysname, quick=100, thorough=1000, workers_quick=2, workers_thorough=4),
-    Sub("history", check_history, strategy=strat_history, quick=600, thorough=3500, workers_quick=4,
-        workers_thorough=16, budget_quick=50, budget_thorough=560),
+    Sub("history", check_history, strategy=strat_history, quick=520, thorough=3500, workers_quick=4,
+        workers_thorough=16, budget_quick=40, budget_thorough=480),
+    Sub("compete", check_history, strategy=strat_compete, quick=160, thorough=1500, workers_quick=4,
+        workers_thorough=16, budget_quick=12, budget_thorough=120),
 ]
 
 
@@ -630,4 +870,11 @@ REGRESSIONS = [
                   "mac": ["52:54:00:ab:cd:ef"], "kw": []},
         "ops": [{"op": "list", "no_obf": [], "lines": [_ln("", ["mac", 0, 0, 0, ""])]}]},
         expect="known", finding="C09-short-name-substring"),
+    # pinned known finding C09-keyword-hex-pair-mac (class excluded from generation: kw_unsafe, two-hex-digit keywords)
+    Reg("hex-pair-keyword-fabricates-mac", "compete", {
+        "fqdn": "web01.corp.acme.org", "compete": True, "allow_unsafe_kw": True,
+        "pools": {"ip": ["99.199.199.9"], "host": ["web01", "web01.corp.acme.org", "other.corp.acme.org"],
+                  "mac": ["ab:bb:cc:dd:ee:ff"], "kw": ["ab"]},
+        "ops": [{"op": "list", "no_obf": [], "lines": [_ln("", ["mac", 0, 0, 0, ""])]}]},
+        expect="known", finding="C09-keyword-hex-pair-mac"),
 ]
